@@ -16,28 +16,33 @@ func sp(s string) *string { return &s }
 
 // Profile selects which features a generated world/history may use.
 type Profile struct {
-	NS          []string // tenant namespaces
-	Hosts       []string
-	Paths       []string
-	MaxIng      int
-	TLS         bool
-	DefBackend  bool // spec.defaultBackend
-	EmptyHost   bool // rules with host ""
-	Classes     bool // class selection variants
-	Ann         []annChoice
-	SvcAnn      []annChoice
-	GlobalCM    bool     // create the global ConfigMap
-	GlobalKeys  []annChoice
-	Pods        bool
-	MissingRefs bool // ingress may reference missing services/secrets
-	MaxReady    int
-	NotReady    bool
-	AuthSecret  bool
-	MultiTLS    bool // tls blocks may list hosts without a rule
-	Avoid       []avoidRule // input classes of known findings, excluded by construction
-	NoTCPCM     bool        // do not create the ConfigMap based tcp-services (they never update dynamically)
-	Bundles     []annBundle // coherent groups of annotations (a feature switched on as a whole)
-	BundlePct   int
+	NS             []string // tenant namespaces
+	Hosts          []string
+	Paths          []string
+	MaxIng         int
+	MinIng         int
+	Svcs           []string // service names per namespace (default s1..s3)
+	SparseOK       bool     // focused worlds may be sparse
+	Sparse         bool     // one rule with one path per ingress: few incidental links between ingresses
+	TLS            bool
+	DefBackend     bool // spec.defaultBackend
+	EmptyHost      bool // rules with host ""
+	Classes        bool // class selection variants
+	Ann            []annChoice
+	SvcAnn         []annChoice
+	GlobalCM       bool // create the global ConfigMap
+	GlobalKeys     []annChoice
+	Pods           bool
+	MissingRefs    bool // ingress may reference missing services/secrets
+	MaxReady       int
+	NotReady       bool
+	AuthSecret     bool
+	MultiTLS       bool        // tls blocks may list hosts without a rule
+	Avoid          []avoidRule // input classes of known findings, excluded by construction
+	NoTCPCM        bool        // do not create the ConfigMap based tcp-services (they never update dynamically)
+	RotateTogether bool        // some batches renew several tls secrets with one and the same new certificate
+	Bundles        []annBundle // coherent groups of annotations (a feature switched on as a whole)
+	BundlePct      int
 }
 
 // annBundle switches a feature on: every key gets one of its values; Path, if
@@ -151,6 +156,14 @@ func (g *G) add(o *world.Obj) *world.Obj {
 
 func svcNames() []string { return []string{"s1", "s2", "s3"} }
 
+// svcs are the service names of the profile.
+func (g *G) svcs() []string {
+	if len(g.P.Svcs) > 0 {
+		return g.P.Svcs
+	}
+	return svcNames()
+}
+
 func ipFor(ns, svc string, i int) string {
 	n := 1
 	if ns == "b" {
@@ -216,7 +229,7 @@ func (g *G) addr(svc *world.Obj, k int) world.Addr {
 }
 
 func (g *G) genPath() world.Path {
-	p := world.Path{Path: g.pick("path", g.P.Paths), Svc: g.pick("svc", svcNames())}
+	p := world.Path{Path: g.pick("path", g.P.Paths), Svc: g.pick("svc", g.svcs())}
 	p.Type = g.pick("ptype", []string{"Prefix", "Exact", "ImplementationSpecific", "Prefix", ""})
 	// port reference: by number or by name, sometimes a missing one
 	r := g.intn("portref", 0, 9)
@@ -262,6 +275,9 @@ func (g *G) genIngress(ns, name string, created int) *world.Obj {
 	o := &world.Obj{Kind: world.KIngress, NS: ns, Name: name, Created: created}
 	g.classify(o)
 	nrules := g.intn("nrules", 1, 2)
+	if g.P.Sparse {
+		nrules = 1
+	}
 	for i := 0; i < nrules; i++ {
 		hosts := g.P.Hosts
 		if g.P.EmptyHost && g.chance("emptyhost", 10) {
@@ -269,6 +285,9 @@ func (g *G) genIngress(ns, name string, created int) *world.Obj {
 		}
 		r := world.Rule{Host: g.pick("host", hosts)}
 		np := g.intn("npaths", 1, 2)
+		if g.P.Sparse {
+			np = 1
+		}
 		for j := 0; j < np; j++ {
 			p := g.genPath()
 			g.fixPort(ns, &p)
@@ -297,32 +316,7 @@ func (g *G) genIngress(ns, name string, created int) *world.Obj {
 			o.TLS = append(o.TLS, t)
 		}
 	}
-	g.drawTheme()
-	useTheme := g.theme > 0 && g.chance("usetheme", g.themePct)
-	if useTheme || (len(g.P.Bundles) > 0 && g.chance("bundle", g.P.BundlePct)) {
-		b := g.P.Bundles[g.intn("whichbundle", 0, len(g.P.Bundles)-1)]
-		if useTheme {
-			b = g.P.Bundles[g.theme-1]
-		}
-		if o.Ann == nil {
-			o.Ann = map[string]string{}
-		}
-		for _, k := range b.Keys {
-			o.Ann[k.Key] = g.pick("bundleval", k.Values)
-		}
-		if b.Path != "" {
-			p := g.genPath()
-			p.Path = b.Path
-			g.fixPort(ns, &p)
-			o.Rules[0].Paths = append(o.Rules[0].Paths, p)
-		}
-		if b.Root {
-			for i := range o.Rules {
-				o.Rules[i].Paths = o.Rules[i].Paths[:1]
-				o.Rules[i].Paths[0].Path = "/"
-			}
-		}
-	}
+	g.applyBundle(o)
 	nann := 0
 	if len(g.P.Ann) > 0 {
 		nann = g.intn("nann", 0, 2)
@@ -345,6 +339,36 @@ func (g *G) secretNames() []string {
 	return names
 }
 
+// applyBundle switches one feature on (the world's theme or a random bundle).
+func (g *G) applyBundle(o *world.Obj) {
+	g.drawTheme()
+	useTheme := g.theme > 0 && g.chance("usetheme", g.themePct)
+	if useTheme || (len(g.P.Bundles) > 0 && g.chance("bundle", g.P.BundlePct)) {
+		b := g.P.Bundles[g.intn("whichbundle", 0, len(g.P.Bundles)-1)]
+		if useTheme {
+			b = g.P.Bundles[g.theme-1]
+		}
+		if o.Ann == nil {
+			o.Ann = map[string]string{}
+		}
+		for _, k := range b.Keys {
+			o.Ann[k.Key] = g.pick("bundleval", k.Values)
+		}
+		if b.Path != "" {
+			p := g.genPath()
+			p.Path = b.Path
+			g.fixPort(o.NS, &p)
+			o.Rules[0].Paths = append(o.Rules[0].Paths, p)
+		}
+		if b.Root {
+			for i := range o.Rules {
+				o.Rules[i].Paths = o.Rules[i].Paths[:1]
+				o.Rules[i].Paths[0].Path = "/"
+			}
+		}
+	}
+}
+
 // drawTheme decides once per world whether it has a recurring feature ("theme"): several
 // ingresses then share userlists, auth backends, tcp ports, ... which is where the
 // cross-object bookkeeping is exercised.
@@ -357,6 +381,19 @@ func (g *G) drawTheme() {
 				// focused world: one namespace, nearly every ingress carries the feature
 				g.P.NS = g.P.NS[:1]
 				g.themePct = 90
+				if g.P.SparseOK && g.chance("sparse", 60) {
+					// ... and the ingresses have few other links among them: own host, own service
+					g.P.Sparse = true
+					g.P.Hosts = []string{"h1.local", "h2.local", "h3.local", "h4.local", "h5.local", "h6.local"}
+					g.P.Svcs = []string{"s1", "s2", "s3", "s4", "s5", "s6"}
+					g.P.EmptyHost, g.P.DefBackend, g.P.MultiTLS = false, false, false
+					if g.P.MinIng < 3 {
+						g.P.MinIng = 3
+					}
+					if g.P.MaxIng < 6 {
+						g.P.MaxIng = 6
+					}
+				}
 			}
 		}
 	}
@@ -364,14 +401,22 @@ func (g *G) drawTheme() {
 
 // classify sets the class selection of an ingress.
 func (g *G) classify(o *world.Obj) {
+	// Every ingress that names an IngressClass in spec.ingressClassName is linked to it in the tracker, so all
+	// the ingresses of one class form one connected component and a change of one of them re-parses all of them.
+	// Ingresses selected by the annotation are not linked to each other: they are where the per-object tracking
+	// of a partial sync is really exercised, so most ingresses use the annotation.
 	if !g.P.Classes {
-		o.ClassName = sp(world.OurClass)
+		if g.chance("classbyann", 65) {
+			o.RawAnn = map[string]string{world.ClassAnn: world.OurClass}
+		} else {
+			o.ClassName = sp(world.OurClass)
+		}
 		return
 	}
-	switch g.intn("classmode", 0, 13) {
-	case 0, 1, 2, 3:
+	switch g.intn("classmode", 0, 17) {
+	case 0, 1:
 		o.ClassName = sp(world.OurClass)
-	case 4, 5:
+	case 2, 3, 4, 5, 14, 15, 16, 17:
 		o.RawAnn = map[string]string{world.ClassAnn: world.OurClass}
 	case 6:
 		o.ClassName = sp("other")
@@ -413,7 +458,7 @@ func (g *G) genWorld() {
 		g.add(cm)
 	}
 	for _, ns := range g.P.NS {
-		for _, s := range svcNames() {
+		for _, s := range g.svcs() {
 			if g.P.MissingRefs && g.chance("nosvc", 10) {
 				continue
 			}
@@ -436,9 +481,14 @@ func (g *G) genWorld() {
 		}
 		if g.P.AuthSecret {
 			g.add(&world.Obj{Kind: world.KSecret, NS: ns, Name: "pw", SecretKind: "auth", Auth: "usr1::clear1\n"})
+			g.add(&world.Obj{Kind: world.KSecret, NS: ns, Name: "pw2", SecretKind: "auth", Auth: "usr2::clear2\n"})
 		}
 	}
-	ning := g.intn("ning", 1, g.P.MaxIng)
+	minIng := 1
+	if g.P.MinIng > 0 {
+		minIng = g.P.MinIng
+	}
+	ning := g.intn("ning", minIng, g.P.MaxIng)
 	for i := 0; i < ning; i++ {
 		ns := g.pick("ingns", g.P.NS)
 		name := fmt.Sprintf("i%d", i+1)
@@ -469,7 +519,7 @@ func (g *G) genOp(kinds []string) (world.Op, bool) {
 			op = world.Op{Op: "delete", Obj: ex[g.intn("which", 0, len(ex)-1)].Clone()}
 		}
 	case world.KService:
-		ns, name := g.pick("svcns", g.P.NS), g.pick("svcname", svcNames())
+		ns, name := g.pick("svcns", g.P.NS), g.pick("svcname", g.svcs())
 		cur := g.W.Get(kind, ns+"/"+name)
 		switch {
 		case cur == nil:
@@ -484,7 +534,7 @@ func (g *G) genOp(kinds []string) (world.Op, bool) {
 			op = world.Op{Op: "update", Obj: n}
 		}
 	case world.KEndpoints:
-		ns, name := g.pick("epns", g.P.NS), g.pick("epname", svcNames())
+		ns, name := g.pick("epns", g.P.NS), g.pick("epname", g.svcs())
 		cur := g.W.Get(kind, ns+"/"+name)
 		svc := g.W.Get(world.KService, ns+"/"+name)
 		switch {
@@ -605,7 +655,18 @@ func (g *G) nextIngNum() int {
 
 func (g *G) mutateIngress(cur *world.Obj) *world.Obj {
 	n := cur.Clone()
-	switch g.intn("ingmut", 0, 8) {
+	nmut := 8
+	if len(g.P.Bundles) > 0 {
+		nmut = 10
+	}
+	switch g.intn("ingmut", 0, nmut) {
+	case 9, 10: // switch the feature bundle: drop every bundle key, maybe apply another one (or the same with other values)
+		for _, b := range g.P.Bundles {
+			for _, k := range b.Keys {
+				delete(n.Ann, k.Key)
+			}
+		}
+		g.applyBundle(n)
 	case 0: // add a rule
 		r := world.Rule{Host: g.pick("host", g.P.Hosts)}
 		p := g.genPath()
@@ -627,7 +688,7 @@ func (g *G) mutateIngress(cur *world.Obj) *world.Obj {
 	case 3: // change the service of a path
 		i := g.intn("rule", 0, len(n.Rules)-1)
 		j := g.intn("pathidx", 0, len(n.Rules[i].Paths)-1)
-		n.Rules[i].Paths[j].Svc = g.pick("svc", svcNames())
+		n.Rules[i].Paths[j].Svc = g.pick("svc", g.svcs())
 		g.fixPort(n.NS, &n.Rules[i].Paths[j])
 	case 4: // toggle tls
 		if !g.P.TLS {
@@ -903,6 +964,40 @@ type HistCase struct {
 	Excluded map[string]int `json:"excluded,omitempty"`
 }
 
+// rotateTogether: one batch that gives several tls secrets the same new certificate (a wildcard
+// certificate copied to several namespaces and renewed at once).
+func (g *G) rotateTogether() []world.Op {
+	if !g.P.RotateTogether || !g.chance("rotate-together", 10) {
+		return nil
+	}
+	var tls []*world.Obj
+	for _, o := range g.existing(world.KSecret) {
+		if o.SecretKind == "tls" {
+			tls = append(tls, o)
+		}
+	}
+	if len(tls) < 2 {
+		return nil
+	}
+	cert := g.intn("cert", 0, world.PoolSize()-1)
+	first := g.intn("rotfirst", 0, len(tls)-2)
+	n := g.intn("rotcount", 2, 3)
+	var ops []world.Op
+	for _, o := range tls[first:] {
+		if len(ops) == n {
+			break
+		}
+		upd := o.Clone()
+		upd.Cert = cert
+		op := world.Op{Op: "update", Obj: upd}
+		if _, _, err := g.W.Apply(op); err != nil {
+			panic(err)
+		}
+		ops = append(ops, world.Op{Op: "update", Obj: upd.Clone()})
+	}
+	return ops
+}
+
 // genHistory draws a history with the given op kinds.
 func genHistory(t *rapid.T, p Profile, params ctlsim.Params, kinds []string, maxBatches, maxOps int) HistCase {
 	return genHistoryX(t, p, params, kinds, maxBatches, maxOps, false)
@@ -922,7 +1017,10 @@ func genHistoryX(t *rapid.T, p Profile, params ctlsim.Params, kinds []string, ma
 	nb := g.intn("nbatches", 1, maxBatches)
 	for b := 0; b < nb; b++ {
 		nops := g.intn("nops", 1, maxOps)
-		var ops []world.Op
+		ops := g.rotateTogether()
+		if len(ops) > 0 {
+			nops = 0
+		}
 		for i := 0; i < nops; i++ {
 			if op, ok := g.genOp(kinds); ok {
 				ops = append(ops, world.Op{Op: op.Op, Obj: op.Obj.Clone()})
